@@ -200,7 +200,6 @@ func (s *sim) stopDispatcher() {
 	inc.dead = true
 	s.logf("dispatcher %d dies", inc.n)
 	s.w.KillNode(inc.node)
-	s.killOblig = map[string]*killObligation{}
 }
 
 func (inc *incarnation) chooseType(ctr *arvados.Container) (arvados.InstanceType, error) {
